@@ -135,6 +135,7 @@ pub fn generate(seed: u64, tier: &str, sink: &mut Sink) {
         let mut pieces: Vec<Vec<u8>> = vec![];
         let mut ct_line: Vec<u8> = vec![];
         let o: Result<(), (String, String)> = (|| {
+            obs.resend_check("form")?;
             if obs.prepare_error.as_deref() == Some("panic") {
                 return Err((format!("prepare-panic-{}", if nt + nf == 0 { "empty-form" } else { "form" }), "building or preparing the multipart request panicked".into()));
             }
